@@ -91,8 +91,10 @@ def run(ck, F):
                 continue
             if tr in ("std::clone::Clone", "std::fmt::Debug"):
                 tgt = "<std::sync::Arc<T, A> as " + tr + ">::" + m
-                fw = [(bb, t) for bb, t in calls if (M.Body.callee(t) or "") == tgt]
-                others = [M.Body.callee(t) for bb, t in calls if (M.Body.callee(t) or "") != tgt and not any(
+                # Debug: through the Arc's Debug (which forwards to T's) or on the wrapped value directly (`Debug::fmt(&*self.inner, f)`)
+                tgts = (tgt, "std::fmt::Debug::fmt") if tr == "std::fmt::Debug" else (tgt,)
+                fw = [(bb, t) for bb, t in calls if (M.Body.callee(t) or "") in tgts]
+                others = [M.Body.callee(t) for bb, t in calls if (M.Body.callee(t) or "") not in tgts and not any(
                     (M.Body.callee(t) or "").endswith(a) or (M.Body.callee_decl(t) or "").endswith(a) for a in ALLOWED_AUX)]
                 ok = len(fw) == 1 and from_inner(B, fw[0][1]["args"][0]) and not others
                 if tr == "std::clone::Clone":
